@@ -222,7 +222,7 @@ impl Mon {
         if self.en("C20") {
             self.venue_on_ix(w, v, &info);
         }
-        if self.on.iter().any(|p| matches!(*p, "C08" | "C12" | "C13" | "C14" | "C19")) {
+        if self.on.iter().any(|p| matches!(*p, "C07" | "C08" | "C12" | "C13" | "C14" | "C19")) {
             self.admin_on_ix(w, v, &info);
         }
     }
